@@ -182,7 +182,7 @@ def retry_timeouts(prop: Prop, cases: list, impl_side: list):
     if not idx:
         return impl_side, 0
     old = getattr(prop, "CASE_TIMEOUT", 30)
-    prop.CASE_TIMEOUT = max(120.0, 10.0 * float(old))
+    prop.CASE_TIMEOUT = max(120.0, 4.0 * float(old))
     out = list(impl_side)
     hangs = 0
     try:
